@@ -20,6 +20,22 @@ prop('C17', 'model_checking', 'explicit-state BFS over I/O-channel histories on 
      'data races are decided by a separate free-running ThreadSanitizer pass.',
      'depth-bounded (quick 4 / thorough 5 operations beyond de-duplication), 16 KiB device; scheduler hooks pthread_create/join/mutex_lock/unlock and pread64 by link-time wrapping (no source hook); sequential consistency assumed, TSan covers unsynchronised accesses.', '4/C17')
 
+prop('C01', 'fault_enumeration', 'exhaustive deviation-bounded corruption sweep (field catalogue x boundary value alphabet, k<=1, thorough k<=2 over representatives) through e2fsck -fy then e2fsck -fn',
+     'Every single-field mutant (with and without re-sealed checksum) of the committed corpus images is repaired with e2fsck -fy; whenever that run claims success the next e2fsck -fn must exit 0 with an empty problem log. '
+     'Non-convergent inputs that exist on the pinned tree are genuine e2fsck defects listed by exact mutant id in known_findings/C01.cases.json; any other non-convergent mutant is a violation.',
+     'scope: images within one (thorough: two) corrupted catalogue fields of 13 small corpus images (the MMP image is excluded because read-write e2fsck sleeps 11 s on it); not arbitrary images.', '4/C01')
+prop('C02', 'fault_enumeration', 'same exhaustive corruption sweep; oracle = independent ext4 checker xck on every mutant that e2fsck -fn accepts',
+     'For every mutant that e2fsck -fn accepts (exit 0) the independent checker (own struct layouts, CRCs, dirhash; tools/xck) must find no violation of block-reference, allocation, link, structure or checksum invariants. '
+     'Five root causes where the pinned e2fsck accepts inconsistent images are recorded as known findings (by root-cause signature or exact mutant id).',
+     'trusted: xck, calibrated against e2fsck on the repo\'s 278 clean f_* images (tools/xck_calibrate.py); invariants e2fsck documents as ignorable are not asserted (list in the evidence assumptions).', '4/C02')
+prop('C13', 'fault_enumeration', 'exhaustive product of images (corpus + unrecovered journal + single-field mutants) x read-only invocations, byte-identity oracle',
+     'Every image of the set x 11-17 read-only invocations of e2fsck/debugfs/dumpe2fs/tune2fs/resize2fs/e2image/e2freefrag/mke2fs -n: the image file must keep its mtime/size after each invocation and be byte-identical at the end.',
+     'quick restricts mutants to fields that steer open-time behaviour (superblock, descriptors, journal superblock, MMP, reserved inodes); thorough uses the whole catalogue.', '4/C13')
+prop('C14', 'model_checking', 'exhaustive byte-flip coverage sweep over checksum-covered ranges + tool-operation x independent checksum recomputation + exhaustive CRC primitive comparison over length x alignment x GF(2) basis',
+     '(a) each of ~35 tool operations on checksum-enabled corpus images and 7 mke2fs configurations: every checksum recomputed independently by xck; (b) every byte of the first objects of each kind (sampled for the rest) flipped: e2fsck -fn must exit non-zero and libext2fs\'s verifying read path must report an error; '
+     '(c) crc32c/crc32-be/crc16 equal bit-at-a-time polynomial division for every length 0..300 x alignment 0..7 x 3 seeds x {patterns, every single-bit buffer, all 2-byte buffers}.',
+     'journal block checksums are covered by C03; MMP follows the documented PR_NO_OK exception; two known findings (group-descriptor damage exits 0, uninit-group metadata bits) shared with C02.', '4/C14')
+
 def main():
     props = [json.loads(l) for l in open(os.path.join(V, 'properties.jsonl'))]
     checks, na = [], []
